@@ -87,8 +87,9 @@ def strategy_reader(draw, tier):
                                     max_size=40),
                 "repeat": st.booleans(),
             })))
+    threads = draw(st.sampled_from([None, None, 1, 2, 3]))
     return {"compression": comp, "attrs": attrs, "shards": shards,
-            "reads": reads, "pair": pair}
+            "reads": reads, "pair": pair, "threads": threads}
 
 
 def os_threads() -> int:
@@ -133,6 +134,20 @@ def run_reader(case, ctx):
                 next_id += n
                 runs.append([split, ids, {"k": j % 2 + 1}])  # forces a cut
         dsops.filler_session(ds, desc, runs)
+        # the native reader keeps process-wide state: a dataset of another
+        # attribute count read earlier in the same process must not matter
+        other_desc = dsops.simple_desc("fb", case["compression"], 2, ["xxh64"],
+                                       payload=len(case["attrs"]) < 3)
+        other = dsops.create_dataset(root / "other", other_desc)
+        dsops.filler_session(other, other_desc, [["train", [7, 8, 9], None]])
+        ok, got_o = oracles.guarded(
+            ctx, "same-examples", ("other-dataset-read-raised",),
+            "reading a small dataset with another attribute count first",
+            lambda: dsops.read_all(other, "train", "rust", shuffle=0,
+                                   file_parallelism=2))
+        if ok and [dsops.ex_id_of(e) for e in got_o] != [7, 8, 9]:
+            ctx.fail("same-examples", ("sequence-differs", "other-dataset"),
+                     f"small dataset read as {got_o}")
         sizes = case["shards"]["train"]
         s_total = len(sizes)
         skew = max(sizes) >= 10 * max(1, min(sizes))
@@ -293,6 +308,40 @@ def run_reader(case, ctx):
             ctx.label("pair")
             ctx.nontrivial(["pair", pair["t"], pair["repeat"],
                             len(pair["pattern"]), case["shards"]["test"][:3]])
+        # ---- two Python threads, each iterating its own native iterator ----
+        if case.get("threads") and case["shards"]["test"]:
+            import threading
+            results = {}
+
+            def worker(split):
+                try:
+                    results[split] = [
+                        dsops.ex_id_of(e) for e in dsops.read_all(
+                            ds, split, "rust", shuffle=0,
+                            file_parallelism=case["threads"])
+                    ]
+                except BaseException as exc:  # pylint: disable=broad-except
+                    results[split] = exc
+
+            ths = [threading.Thread(target=worker, args=(sp,), daemon=True)
+                   for sp in ("train", "test")]
+            for t in ths:
+                t.start()
+            for t in ths:
+                t.join()  # a deadlock here is caught by the stage watchdog
+            for sp in ("train", "test"):
+                want = [dsops.ex_id_of(e)
+                        for e in dsops.read_all(ds, sp, "sync", shuffle=0)]
+                if isinstance(results.get(sp), BaseException) or \
+                        results.get(sp) != want:
+                    ctx.fail(
+                        "same-examples", ("threaded-iterators-differ",),
+                        f"two Python threads reading train/test through the "
+                        f"native reader at the same time: {sp} gives "
+                        f"{results.get(sp)!r}, python reader {want}")
+            ctx.label("two-threads")
+            ctx.nontrivial(["two-threads", case["threads"],
+                            case["compression"]])
         deadline = time.monotonic() + 10
         while os_threads() > base_threads and time.monotonic() < deadline:
             time.sleep(0.002)
@@ -310,13 +359,19 @@ def strategy_pmap(draw, tier):
     n = draw(st.integers(0, 40))
     t = draw(st.integers(1, 12))
     pattern = draw(st.sampled_from(["zero", "first-slow", "alternating",
-                                    "random", "last-slow"]))
+                                    "random", "last-slow"] * 6 +
+                                   ["one-very-slow"]))
     if pattern == "zero":
         delays = []
     elif pattern == "first-slow":
         delays = [3000] + [0] * max(n - 1, 1)
     elif pattern == "last-slow":
         delays = [0] * max(n - 1, 1) + [3000]
+    elif pattern == "one-very-slow":
+        # one item takes > 1 s while the other workers are long done
+        n = min(n, t) if n else n
+        delays = [0] * max(n, 1)
+        delays[draw(st.integers(0, max(n, 1) - 1))] = 1_300_000
     elif pattern == "alternating":
         delays = [1500, 0]
     else:
